@@ -119,7 +119,7 @@ impl<'a, W: Write> Driver<'a, W> {
                     None => true,
                     Some(tw) => guarded(|| tw.push(form, v)).is_err(),
                 };
-                self.ev(json!({"ev": "push", "s": s + 1, "form": form, "v_s": canon(v), "panic": true, "fresh_same": fresh_panics, "msg": m.chars().take(100).collect::<String>()}));
+                self.ev(json!({"ev": "push", "s": s + 1, "form": form, "item_form": false, "v_s": canon(v), "panic": true, "fresh_same": fresh_panics, "msg": m.chars().take(100).collect::<String>()}));
             }
             Ok(idx) => {
                 let t = &mut slots[s];
@@ -138,7 +138,7 @@ impl<'a, W: Write> Driver<'a, W> {
                         Err(_) => false,
                     },
                 };
-                let mut e = json!({"ev": "push", "s": s + 1, "form": form, "v_s": canon(v), "panic": false, "n_before": nb, "fresh_same": fresh_same,
+                let mut e = json!({"ev": "push", "s": s + 1, "form": form, "item_form": false, "v_s": canon(v), "panic": false, "n_before": nb, "fresh_same": fresh_same,
                     "idx_num": idx_num, "same_as_prev": prev_idx.map(|p| p == idx).unwrap_or(false),
                     "read_s": read_s, "read_err": read_err, "stable": stable, "changed": changed,
                     "used_before": ub, "used_after": ua, "pairs_ok": pairs_ok});
@@ -342,7 +342,7 @@ fn random_run<W: Write>(d: &mut Driver<W>, name: &str, rng: &mut StdRng, steps: 
             match res {
                 Err(m) => {
                     slots[s].dead = true;
-                    d.ev(json!({"ev": "push", "s": s + 1, "form": format!("item:{rep}"), "v_s": canon(&v), "panic": true, "fresh_same": true, "msg": m}));
+                    d.ev(json!({"ev": "push", "s": s + 1, "form": format!("item:{rep}"), "item_form": true, "v_s": canon(&v), "panic": true, "fresh_same": true, "msg": m}));
                 }
                 Ok(None) => {}
                 Ok(Some(idx)) => {
@@ -353,7 +353,7 @@ fn random_run<W: Write>(d: &mut Driver<W>, name: &str, rng: &mut StdRng, steps: 
                     t.vals.push(v.clone());
                     t.first.push(read_s.clone());
                     let (ua, _, pairs_ok) = heap_of(&*t.slot);
-                    let mut e = json!({"ev": "push", "s": s + 1, "form": format!("item:{rep}"), "v_s": canon(&v), "panic": false, "n_before": nb,
+                    let mut e = json!({"ev": "push", "s": s + 1, "form": format!("item:{rep}"), "item_form": true, "v_s": canon(&v), "panic": false, "n_before": nb,
                         "idx_num": idx.as_i64().unwrap_or(-1), "same_as_prev": prev_idx.map(|p| p == idx).unwrap_or(false), "fresh_same": true,
                         "read_s": read_s, "read_err": read_err, "stable": stable, "changed": changed,
                         "used_before": ub, "used_after": ua, "pairs_ok": pairs_ok});
